@@ -43,6 +43,7 @@ def run(chk: Check):
     def extra(c, cfg):
         su.save_then_lookup_scenarios(c, c.rng, c.n(8, 60))
         su.exception_in_with_block_scenarios(c, c.rng, c.n(8, 60))
+        su.mixed_merge_order_scenarios(c, c.rng, c.n(6, 40))
     su.run_property(chk, 'C08', PROPS, gen, nontrivial, extra=extra)
 
 
